@@ -961,17 +961,71 @@ def m_count(E, st, fid, t, args, dest_ty):
     def on_item(s, item):
         return [('cont', s)]
 
+    mids0 = tuple(sorted(x[1] for x in E.sliceits_in(E.peek(st, it_ptr))))
+
     def on_none(s):
         u = fresh('u')
         s.zone.touch(u)
+        # (the default count() of core: the number of items next() yielded until it answered None)
+        s.log('counted', mids0, u)
         return [('ret', s, I(u))]
 
     return _finish(consume(E, st, fid, it_ptr, on_item, on_none, ('count', fid)), [ip])
 
 
+def iter_size_hint(E, st, ptr, fid):
+    """size_hint() of the iterator stored at ptr -> list of (kind, state, (lower, upper))  (None: unknown iterator)"""
+    v = E.load(st, ptr)
+    if v[0] == 'ref':
+        return iter_size_hint(E, st, v[2], fid)
+    if v[0] == 'sliceit':
+        n = ('slen', v[2], v[3])
+        return [('ret', st, ('tuple', (n, some(n))))]
+    if v[0] == 'adt' and v[1] == CHAIN:
+        return chain_size_hint(E, st, ptr, fid)
+    if v[0] == 'adt':
+        bid = E.impl_index.get((IT[:-2], v[1], 'size_hint'))
+        if bid is not None:
+            body = E.facts.bodies[bid]
+            return E.call_local(st, bid, [('ref', False, ptr)], E.gs_from_value(st, v, body))
+    return None
+
+
+def chain_size_hint(E, st, ptr, fid):
+    """core's Chain::size_hint: the hints of the halves that are still present, added (saturating / checked)"""
+    from .interp import add_values
+    states = [(st, I(0), I(0), True)]
+    for fld in (0, 1):
+        nxt = []
+        for s, lo, hi, known in states:
+            h = E.load(s, _field_ptr(E, s, ptr, fld))
+            if not (h[0] == 'adt' and h[1] == OPTION):
+                return None
+            if h[2] == 0:
+                nxt.append((s, lo, hi, known))
+                continue
+            r = iter_size_hint(E, s, E.extend(s, _field_ptr(E, s, ptr, fld), 0), fid)
+            if r is None:
+                return None
+            for kind, s2, hv in r:
+                if kind != 'ret':
+                    continue
+                if not (hv[0] == 'tuple' and len(hv[1]) == 2):
+                    return None
+                l2, u2 = hv[1]
+                up = u2[3][0] if (u2[0] == 'adt' and u2[1] == OPTION and u2[2] == 1) else None
+                nxt.append((s2, add_values(lo, l2), add_values(hi, up) if (known and up is not None) else hi,
+                            known and up is not None))
+        states = nxt
+    return [('ret', s, ('tuple', (lo, some(hi) if known else NONE))) for s, lo, hi, known in states]
+
+
 @model('<core::iter::adapters::chain::Chain<A, B> as core::iter::traits::iterator::Iterator>::size_hint',
        'sum of the hints of both halves (saturating / checked)')
 def m_chain_size_hint(E, st, fid, t, args, dest_ty):
+    r = chain_size_hint(E, st, args[0][2], fid) if args[0][0] == 'ref' else None
+    if r is not None:
+        return r
     lo = fresh('u')
     st.zone.touch(lo)
     return ret(st, ('tuple', (I(lo), ('unk', freeze({'k': 'adt', 'path': OPTION, 'args': [{'k': 'prim', 'name': 'usize'}]}), ('hint',)))))
@@ -1774,6 +1828,9 @@ def m_checked_sub(E, st, fid, t, args, dest_ty):
 def m_checked_add(E, st, fid, t, args, dest_ty):
     a, b = args[0], args[1]
     if a[0] != 'int' or b[0] != 'int':
+        from .interp import add_values, to_aff
+        if all(x[0] in ('int', 'slen', 'aff', 'sum', 'satsub', 'minof') for x in (a, b)):
+            return [('ret', st.fork(), NONE), ('ret', st, some(add_values(a, b)))]
         return E.opaque_call(st, fid, t, args, dest_ty)
     s1 = st.fork()
     r = E.binop(s1, 'AddWithOverflow', a, b)
@@ -1783,6 +1840,12 @@ def m_checked_add(E, st, fid, t, args, dest_ty):
         if ok is not None:
             out.append(('ret', ok, some(r[1][0])))
     return out
+
+
+@model(['core::num::<impl usize>::saturating_add'], 'min(usize::MAX, a + b)')
+def m_saturating_add(E, st, fid, t, args, dest_ty):
+    from .interp import add_values
+    return ret(st, add_values(args[0], args[1]))
 
 
 @model(['core::num::<impl usize>::wrapping_sub', 'core::num::<impl usize>::wrapping_add'], 'wrapping arithmetic')
